@@ -395,6 +395,24 @@ theorem fetch_all_read_source_correct (index : List (Bytes × Idx)) (file seq : 
   · rw [fetchAllByRid_eq_model, (fetch_known_rid index rid 0 0 hr).2]; rfl
   · rw [read_eq, h, wf.len_eq]; simp
 
+open RbV.Thm.GenSrcIdxFa in
+/-- **Translated `fetch_by_rid` followed by translated `read` on a file cut inside the requested span** is the
+"FASTA file is truncated." error — the fetch itself succeeds (it only consults the `.fai` entry), the read never
+returns `Ok` with short or shifted data; whatever was fetched or read before (session 5). -/
+theorem fetch_read_source_truncated (index : List (Bytes × Idx)) (file seq : Bytes) (rid start stop n : Nat)
+    (sched : Nat → Nat) (s0 : St) (seq0 : Bytes) (fuel : Nat) (fi0 : Option Gen.SrcIdxFa.IndexRecord) (a0 b0 : Option Nat)
+    (hr : rid < index.length) (wf : WellFormed file index[rid].2 seq) (h1 : start < stop) (h2 : stop ≤ index[rid].2.len)
+    (hs : ∀ k, 0 < sched k) (hcut : n ≤ pos index[rid].2 (stop - 1)) (h64 : index[rid].2.lB < 2 ^ 64)
+    (hfit : pos index[rid].2 start < 2 ^ 64) (hfuel : (file.take n).length < fuel) :
+    ∃ fi a b s' seq', Gen.SrcIdxFa.fetchByRid (toRecs index) fi0 a0 b0 rid start stop = .ok (.ok (), fi, a, b) ∧
+      Gen.SrcIdxFa.read (fillBufOp sched) consumeOp (seekOp (file.take n)) s0 fi a b seq0 fuel =
+        .ok (.error eofErr, s', seq') := by
+  obtain ⟨s', seq', h⟩ :=
+    read_source_truncated file seq index[rid].2 start stop n sched s0 seq0 fuel wf h1 h2 hs hcut h64 hfit hfuel
+  refine ⟨some (toRec index[rid].2), some start, some stop, s', seq', ?_, ?_⟩
+  · rw [fetchByRid_eq_model, (fetch_known_rid index rid start stop hr).1]; rfl
+  · rw [read_eq]; exact h
+
 /-! ## `read_into_iter` / `read_iter` translated from the source text (session 6, genleft)
 
 `RbV/Gen/SrcIdxFaIter.lean`; proofs `RbV/Thm/GenSrcIdxFaIter.lean`.  The iterator struct carries the ghost field `buf_cap` =
